@@ -49,7 +49,10 @@ def gen(r, tier, i):
             'perm_seeds': [r.randrange(10 ** 6) for _ in range(3)],
             # two more processes on a numpy-array variable: one accumulates into it, the other hands the
             # array it was shown back as its update (the view must be a snapshot, not the live value)
-            'arrays': r.choice([None, None, r.choice([0.5, 1.0])])}
+            'arrays': r.choice([None, None, r.choice([0.5, 1.0])]),
+            # a process that adds a child to a glob store and, in the same update, writes to a second
+            # (branch) port; a census process reports how many children its glob view shows
+            'census': r.choice([None, None, r.choice([0.5, 1.0])])}
 
 
 def run_grammar(spec, V):
@@ -174,15 +177,44 @@ def run_perm(spec, V):
         def next_update(self, timestep, states):
             return {'T': {'total': states['S']['field']}}
 
+    class Grower(Process):
+        def ports_schema(self):
+            return {'pool': {'*': {'_default': 0, '_emit': True}},
+                    'book': {'ticks': {'_default': 0, '_emit': True}}}
+
+        def calculate_timestep(self, states):
+            return self.parameters['ts']
+
+        def next_update(self, timestep, states):
+            k = len(states['pool'])
+            return {'pool': {'_add': [{'key': 'c%d' % k, 'state': k}]}, 'book': {'ticks': 1}}
+
+    class Census(Process):
+        def ports_schema(self):
+            return {'pool': {'*': {'_default': 0}},
+                    'report': {'seen': {'_default': 0, '_updater': 'set', '_emit': True}}}
+
+        def calculate_timestep(self, states):
+            return self.parameters['ts']
+
+        def next_update(self, timestep, states):
+            return {'report': {'seen': len(states['pool'])}}
+
     def once(perm_seed):
         r = random.Random(perm_seed) if perm_seed is not None else None
         procs = {k: A({'pid': int(k[1:]), 'ts': ts, 'flip': bool(r and r.random() < 0.5)}) for k, ts in spec['procs'].items()}
         if spec.get('arrays'):
             procs['grow'] = Grow({'ts': spec['arrays']})
             procs['follow'] = Follow({'ts': spec['arrays']})
+        if spec.get('census'):
+            procs['grower'] = Grower({'ts': spec['census']})
+            procs['census'] = Census({'ts': spec['census']})
         steps = {'s%d' % j: St({'pid': j}) for j in spec['steps']}
         flow = {k: [(d,) for d in deps] for k, deps in spec['flow'].items()}
         topo = {k: ({'S': ('s',)} if k == 'grow' else {'S': ('s',), 'T': ('t',)}) for k in list(procs) + list(steps)}
+        if spec.get('census'):
+            topo['grower'] = {'pool': ('pool',), 'book': ('u', 'book')}
+            topo['census'] = {'pool': ('pool',), 'report': ('report',)}
         init = {'s': {'acc': 3}, 't': {'sum2': 1}}
         if r is not None:
             procs, steps, flow, topo, init = (shuffled(x, r) for x in (procs, steps, flow, topo, init))
@@ -208,11 +240,24 @@ def run_perm(spec, V):
             V.check('no_exception', False, ('permuted run raised', type(ex).__name__, str(ex)[:200]))
             continue
         differs += order != order0
+        if spec.get('census'):
+            V.check('snapshot_is_committed_state', perm_ok(out) is None,
+                    lambda: ('census process was shown a stale glob view', perm_ok(out)))
         bad = [t for t in sorted(set(ref) | set(out)) if ref.get(t) != out.get(t)]
         V.check('permutation_invariant', not bad,
                 lambda: ('trajectory differs under a permutation of the listing order, first at t=%r' % bad[0],
                          ref.get(bad[0]), out.get(bad[0]), order))
     return {'rows': len(ref), 'permutations_differing': differs}, len(spec['procs']) >= 2 and len(ref) >= 3 and differs >= 1, ['perm']
+
+
+def perm_ok(data):
+    """The census process and the grower have one timestep: the census started at the instant of row k saw
+    the pool of row k, and that count is in row k+1 (None = fine)."""
+    ts = sorted(data)
+    for a, b in zip(ts, ts[1:]):
+        if data[b].get('report', {}).get('seen') not in (len(data[a].get('pool', {})), data[a].get('report', {}).get('seen')):
+            return (a, b, data[a].get('pool'), data[b].get('report'))
+    return None
 
 
 def run(spec):
